@@ -50,6 +50,9 @@ class StepChecker:
             val -= self.spec["reg"] * float(np.sum(W * (self.full_kernel @ W)))
         if self.mlcl is not None:
             val += mlcl_ref.energy(P, idx, self.mlcl["ml"], self.mlcl["cl"], self.mlcl["factor"])
+            if self.mlcl.get("again"):  # a second decoration adds its own energy with its own weight
+                again = self.mlcl["again"]
+                val += mlcl_ref.energy(P, idx, again["ml"], again["cl"], again["factor"])
         return val
 
     # ------------------------------------------------------------------------------------------
